@@ -243,3 +243,9 @@ def pins(rep, mod):
     rep.ob('C14.pin', 'interconnects: instance/pin split of both endpoints', ok)
     if not ok:
         rep.violate('C14.pin', mod, g, "n.split('/')", 'interconnects must split both endpoints into (instance, pin) at "/"', node=g)
+
+
+def thorough(rep, repo):
+    """Thorough tier: the quick rules plus checker self-validation on the C14 slice of the mutation corpus."""
+    from kvstatic import thorough as thorough_mod
+    thorough_mod.selftest_slice(rep, repo, 'C14')
